@@ -305,3 +305,30 @@ fn parse_str_spec<const N: usize>() {
 fn c16_parse_byte_str_exact_3() {
     parse_str_spec::<3>();
 }
+
+fn huge_len_case(digits: &[u8]) {
+    // digits = the whole length prefix; payload "abc" follows the colon
+    let mut input: Vec<u8> = Vec::with_capacity(32);
+    input.extend_from_slice(&digits[1..]);
+    input.extend_from_slice(b":abc");
+    let mut it = input.iter().enumerate();
+    let res = BDecoder::parse_byte_str(&mut it, 0, &digits[0]);
+    assert!(res.is_err(), "a declared length far beyond the remaining input is an error, not an allocation");
+    std::mem::forget(res);
+}
+
+// @prop C16
+// @tier off
+// @fn BDecoder::parse_byte_str
+// @bound concrete length prefixes 2^63 (9223372036854775808), usize::MAX (18446744073709551615), usize::MAX + 1 and 99999999999999999999999 followed by ":abc"
+// @outside symbolic prefixes (parse_byte_str with symbolic bytes runs out of memory, see c16_parse_byte_str_exact_3)
+// @desc a string whose declared length is astronomically larger than the input is rejected with an error and without panicking (no capacity overflow from trusting the declared length)
+#[kani::proof]
+#[kani::unwind(28)]
+fn c16_huge_declared_length_is_rejected() {
+    huge_len_case(b"9223372036854775808");
+    huge_len_case(b"18446744073709551615");
+    huge_len_case(b"18446744073709551616");
+    huge_len_case(b"99999999999999999999999");
+    kani::cover!(true, "reached");
+}
